@@ -77,6 +77,11 @@ def _run_schedules(binp, scheds, d, tag="s", timeout=1800, env=None):
                     continue      # a line cut short by the crash
                 if "begin" in rec:
                     last_begin = rec["line"]
+                elif "hang" in rec:
+                    sh = dict(scheds[rec["line"]], id=rec["line"], cfg=norm_cfg(scheds[rec["line"]]["cfg"]))
+                    traces[rec["line"]] = {"id": rec["line"], "cfg": sh["cfg"], "outs": [], "wins": [], "crash": False, "hang": True, "sched": sh,
+                                           "epilogue": sh.get("epilogue", ""), "origin": sh.get("origin", "")}
+                    HUNG.append(sh)
                 else:
                     traces[rec["id"]] = rec
         if p.returncode == 0:
@@ -86,6 +91,9 @@ def _run_schedules(binp, scheds, d, tag="s", timeout=1800, env=None):
             if last_begin is None:
                 raise Infra("pipedrv died before the first schedule:\n" + (p.stdout + p.stderr)[-3000:])
         text = p.stdout + p.stderr
+        if last_begin in traces and traces[last_begin].get("hang"):
+            start = last_begin + 1
+            continue
         if last_begin in traces:
             # died after the trace was written (in teardown): the trace stands; a library panic there is still a panic
             if is_lib_panic(text):
@@ -132,6 +140,7 @@ def panic_head(text):
     return text[i:i + 600]
 
 
+HUNG = []           # schedules on which the library never came to rest within the watchdog's time (reset per check run)
 EXERCISED = {}      # predicate -> number of executions in which its antecedent held (vacuity guard, reset per check run)
 
 TRACEP_CFG = """SPECIFICATION Spec
